@@ -53,6 +53,7 @@ type Tr struct {
 	lemmaProof   bool
 	revealed     map[string]bool
 	curMref      string
+	reachCache   map[int]map[int]bool
 	visitCount   int
 	subTerms     map[string]string
 	frameTops    []string
@@ -84,6 +85,7 @@ type retPoint struct {
 	st  *State
 	val Value // nil, single value, or Tup
 	pos token.Pos
+	blk int
 }
 
 type nameDef struct {
@@ -155,7 +157,7 @@ func (tr *Tr) nameBool(hint, term string) string {
 		return term
 	}
 	sym := tr.freshSym(hint, true)
-	tr.sc.fact(sEq(sym, term))
+	tr.sc.factLocal(sEq(sym, term))
 	return sym
 }
 
@@ -351,14 +353,15 @@ func (tr *Tr) oblige(st *State, kind, label string, props []string, goal string,
 		id = fmt.Sprintf("%s~%d", base, n)
 	}
 	ob := &Obligation{ID: id, Kind: kind, Label: label, Props: props, Guard: st.guard, Goal: goal,
-		NFacts: len(tr.sc.facts), NDecls: len(tr.sc.decls), Pos: tr.posString(token.NoPos), Desc: desc, Func: tr.key, Case: tr.caseLabel}
+		NFacts: len(tr.sc.facts), NDecls: len(tr.sc.decls), Pos: tr.posString(token.NoPos), Desc: desc, Func: tr.key, Case: tr.caseLabel,
+		Block: tr.sc.curBlock, Reach: tr.reachOf(tr.sc.curBlock)}
 	if goal == "true" {
 		ob.Status = "unsat"
 		ob.Solver = "trivial"
 	}
 	tr.sc.obls = append(tr.sc.obls, ob)
 	// assert-then-assume
-	tr.sc.fact(sImp(st.guard, goal))
+	tr.sc.factLocal(sImp(st.guard, goal))
 }
 
 func (tr *Tr) hasObl(id string) bool {
@@ -371,7 +374,11 @@ func (tr *Tr) hasObl(id string) bool {
 }
 
 func (tr *Tr) assume(st *State, f string) {
-	tr.sc.fact(sImp(st.guard, f))
+	if st.guard == "true" {
+		tr.sc.fact(f)
+		return
+	}
+	tr.sc.factLocal(sImp(st.guard, f))
 }
 
 // ---------------------------------------------------------------------------------------------
@@ -405,7 +412,7 @@ func (tr *Tr) mergeLeaf(hint string, isBool bool, sort string, terms []string, g
 		sym = tr.freshSym(hint, isBool)
 	}
 	for i, t := range terms {
-		tr.sc.fact(sImp(guards[i], sEq(sym, t)))
+		tr.sc.factLocal(sImp(guards[i], sEq(sym, t)))
 	}
 	return sym
 }
@@ -539,6 +546,7 @@ func (tr *Tr) mergeStates(sts []*State) *State {
 		tops[i] = s.top
 	}
 	out.top = tr.mergeLeaf("top", false, "", tops, guards)
+	tr.mergeOpaqueAtoms(sts, out, guards)
 	for name := range tr.heapSorts {
 		if v, ok := out.vars[name]; ok {
 			if _, known := tr.symTop[v.(Sc).T]; !known {
@@ -770,6 +778,9 @@ func (tr *Tr) execBody(fr *Frame, st *State) []retPoint {
 		}
 		var cur *State
 		li := fr.loops[b]
+		if fr.top {
+			tr.sc.curBlock = b.Index // merge facts of this block belong to it
+		}
 		if b == entry {
 			cur = st
 		} else {
@@ -1012,6 +1023,7 @@ func (tr *Tr) execBlock(fr *Frame, b *ssa.BasicBlock, st *State, li *loopInfo) {
 		}
 		if fr.top {
 			tr.curInstrIdx, tr.curBlock = idx, b
+			tr.sc.curBlock = b.Index
 		}
 		if p := in.Pos(); p.IsValid() {
 			tr.curPos = p
@@ -1040,7 +1052,7 @@ func (tr *Tr) execBlock(fr *Frame, b *ssa.BasicBlock, st *State, li *loopInfo) {
 				}
 				v = t
 			}
-			fr.rets = append(fr.rets, retPoint{st: st, val: v, pos: x.Pos()})
+			fr.rets = append(fr.rets, retPoint{st: st, val: v, pos: x.Pos(), blk: b.Index})
 			return
 		case *ssa.Panic:
 			tr.oblige(st, "panic", "", nil, "false", "explicit panic is unreachable")
@@ -1133,4 +1145,134 @@ func (tr *Tr) commonAllocAncestor(ts []string) string {
 		}
 	}
 	return ""
+}
+
+// mergeOpaqueAtoms: for every application of an opaque spec that speaks about the heap of an incoming state (its
+// current heap versions, or versions the current ones extend by allocation only), introduce the corresponding
+// application over the merged heap versions. Under that state's guard the two are equal (plain congruence, spelled out
+// so that the solver does not have to derive it from many array equalities) or, when allocation-ancestors / older
+// allocation counters are involved, related by the stability lemma of the spec.
+func (tr *Tr) mergeOpaqueAtoms(sts []*State, out *State, guards []string) {
+	if tr.specMode > 0 {
+		return
+	}
+	for i, st := range sts {
+		exact := map[string]string{}  // incoming current version -> merged version
+		ancest := map[string]string{} // allocation-ancestor of an incoming version -> merged version
+		for name := range tr.heapSorts {
+			v, ok := st.vars[name]
+			if !ok {
+				v, ok = tr.initVars[name]
+			}
+			if !ok {
+				continue
+			}
+			mv, ok2 := out.vars[name]
+			if !ok2 {
+				mv = v // untouched on every path: the merged state keeps this version
+			}
+			cur := v.(Sc).T
+			exact[cur] = mv.(Sc).T
+			for hops := 0; hops < 500; hops++ {
+				p, has := tr.allocParent[cur]
+				if !has {
+					break
+				}
+				if _, dup := ancest[p]; !dup {
+					ancest[p] = mv.(Sc).T
+				}
+				cur = p
+			}
+		}
+		for fn, insts := range tr.opaqueAtoms {
+			n := len(insts)
+			for k := 0; k < n; k++ {
+				inst := insts[k]
+				changed, ok, isExact := false, true, true
+				var conds []string
+				nargs := make([]string, len(inst.args))
+				for j, a := range inst.args {
+					nargs[j] = a
+					if m, has := exact[a]; has {
+						if m != a {
+							nargs[j] = m
+							changed = true
+						}
+						continue
+					}
+					if m, has := ancest[a]; has {
+						nargs[j] = m
+						changed = true
+						isExact = false
+						continue
+					}
+					if strings.HasPrefix(a, "|top") {
+						if a != out.top {
+							nargs[j] = out.top
+							changed = true
+							if a != st.top {
+								isExact = false
+							}
+							conds = append(conds, sLe(a, out.top))
+						}
+						continue
+					}
+					if strings.HasPrefix(tr.sc.sigs[a], "() (Array") {
+						ok = false // speaks about an unrelated heap version
+						break
+					}
+				}
+				if !changed || !ok {
+					continue
+				}
+				atom := "(" + fn + " " + strings.Join(nargs, " ") + ")"
+				if atom == inst.atom {
+					continue
+				}
+				exists := false
+				for _, o := range tr.opaqueAtoms[fn] {
+					if o.atom == atom {
+						exists = true
+						break
+					}
+				}
+				if isExact || !inst.bool_ {
+					tr.sc.fact(sImp(sAnd(append(conds, guards[i])...), sEq(atom, inst.atom)))
+				} else {
+					tr.sc.fact(sImp(sAnd(append(conds, guards[i], inst.atom)...), atom))
+					tr.stableUsed[inst.sd.Name] = true
+				}
+				if !exists {
+					tr.opaqueAtoms[fn] = append(tr.opaqueAtoms[fn], opaqueInst{fn: fn, args: nargs, atom: atom, sd: inst.sd, bool_: inst.bool_})
+				}
+			}
+		}
+	}
+}
+
+// reachOf returns the set of top-level blocks that can reach block b (including b); nil if b is unknown.
+func (tr *Tr) reachOf(b int) map[int]bool {
+	if b < 0 || tr.fn == nil || b >= len(tr.fn.Blocks) {
+		return nil
+	}
+	if tr.reachCache == nil {
+		tr.reachCache = map[int]map[int]bool{}
+	}
+	if r, ok := tr.reachCache[b]; ok {
+		return r
+	}
+	r := map[int]bool{b: true}
+	stack := []*ssa.BasicBlock{tr.fn.Blocks[b]}
+	for len(stack) > 0 {
+		x := stack[len(stack)-1]
+		stack = stack[:len(stack)-1]
+		for _, p := range x.Preds {
+			if !r[p.Index] {
+				r[p.Index] = true
+				stack = append(stack, p)
+			}
+		}
+	}
+	tr.reachCache[b] = r
+	return r
 }
